@@ -411,6 +411,24 @@ def own_rule(ctx, only_module: str | None = None, rule: str = "C10.own", fields=
             ctx.decide(st == own.OWNED, rule, f.ident, loc_of(f, node), f"{desc}: the array written into was created in this function (copy / new array){note}",
                        f"{desc} writes into `{name}`, which may be (a view of) an argument or attribute: the caller's array -- e.g. the coordinates of a population whose "
                        "log-densities are cached, or the stored log-weights of a sample set -- is changed in place", disc=f"{name}|{sum(1 for x in o.sinks if x[0].lineno < node.lineno)}")
+    # the analysis takes the package's own copy helper on trust (FRESH_CALLS): that trust is checked here -- every return of copy_array is a new array
+    # (clone / copy / array(copy=True)), never a conversion that may share memory with the argument (as_tensor / asarray of a foreign array)
+    if only_module is None or only_module in ("aspire.utils", "aspire.transforms"):
+        for hname in ("copy_array",):
+            try:
+                hf = repo.func(f"aspire.utils:{hname}")
+            except Exception:  # noqa: BLE001
+                hf = None
+            if hf is None:
+                ctx.unknown(rule, f"aspire.utils:{hname}", "src/aspire/utils.py", f"the copy helper {hname} was not found", disc="helper")
+                continue
+            oh = own.analyse_full(hf, repo)
+            bad_ret = [(st_, org_) for st_, org_ in oh.returns if st_ != own.OWNED]
+            n_sinks += 1
+            ctx.decide(not bad_ret, rule, hf.ident, loc_of(hf), f"{hname}() returns a new array on every path",
+                       f"{hname}() has a return that may share memory with its argument (a conversion such as as_tensor / asarray instead of a copy): every transform and sampler that "
+                       "relies on it to get an array of its own before updating it in place then writes into the caller's array -- e.g. the NumPy state of an MCMC kernel handed to a "
+                       "torch-namespace transform", disc="helper-fresh")
     # in-place updates through a name bound to an item of a container the function does not own (`t = values[0]; t += v`)
     for f in repo.all_functions():
         if f.ident == PRIMITIVE or (only_module is not None and not f.ident.startswith(only_module + ":")) or f.ident in getattr(repo, "inlined_idents", ()):
